@@ -523,3 +523,76 @@ theorem fockDist_sum (D n k : Nat) : ∀ (measure : List Nat), measure.length = 
 end flat
 
 end SFV.Meas
+
+/-! ### Fock homodyne grid and Hermite table -/
+
+namespace SFV.Meas
+
+section hermite
+variable {K : Type} [Field K]
+
+theorem linspace_first (q : K) (nb : Nat) : linspacePt q nb 0 = -q := by
+  simp [linspacePt]
+
+theorem linspace_step (q : K) (nb k : Nat) :
+    linspacePt q nb (k + 1) - linspacePt q nb k = (q + q) / ((nb : K) - 1) := by
+  simp only [linspacePt, Nat.cast_add, Nat.cast_one]
+  ring
+
+theorem linspace_last (q : K) (nb : Nat) (hnb : 1 ≤ nb) (h : (nb : K) - 1 ≠ 0) :
+    linspacePt q nb (nb - 1) = q := by
+  simp only [linspacePt, Nat.cast_sub hnb, Nat.cast_one]
+  field_simp
+  ring
+
+theorem linspace_symm (q : K) (nb k : Nat) (hk : k ≤ nb - 1) (hnb : 1 ≤ nb) (h : (nb : K) - 1 ≠ 0) :
+    linspacePt q nb (nb - 1 - k) = -linspacePt q nb k := by
+  simp only [linspacePt, Nat.cast_sub hk, Nat.cast_sub hnb, Nat.cast_one]
+  field_simp
+  ring
+
+theorem hermiteAt_neg (x : K) : ∀ n, hermiteAt (-x) n = (-1) ^ n * hermiteAt x n := by
+  intro n
+  induction n using Nat.twoStepInduction with
+  | zero => simp [hermiteAt]
+  | one => simp [hermiteAt]
+  | more n ih0 ih1 =>
+    simp only [hermiteAt, ih0, ih1, pow_succ]
+    ring
+
+end hermite
+
+end SFV.Meas
+
+/-! ### peaks with complex means -/
+
+namespace SFV.Meas
+open SFV.Gauss SFV.Gauss.Cx SFV.Fock
+
+section cxmean
+variable {K : Type} [CommRing K]
+
+theorem sumTo_re (k : Nat) (f : Nat → Cx K) : (sumTo k f).re = sumTo k fun a => (f a).re := by
+  induction k with
+  | zero => rfl
+  | succ k ih => simp only [sumTo, Cx.add_re, ih]
+
+theorem sumTo_sub (k : Nat) (f g : Nat → K) : sumTo k (fun a => f a - g a) = sumTo k f - sumTo k g := by
+  induction k with
+  | zero => simp [sumTo]
+  | succ k ih => simp only [sumTo, ih]; ring
+
+/-- the real part of the complex exponent is the real-mean form minus the form of the imaginary part of the mean -/
+theorem quadFormCx_re (W : Mat K) (d m : Vec K) (k : Nat) :
+    (quadFormCx W d m k).re = quadForm W d k - quadForm W m k := by
+  unfold quadFormCx quadForm
+  rw [sumTo_re, ← sumTo_sub]
+  refine sumTo_congr fun a _ => ?_
+  rw [sumTo_re, ← sumTo_sub]
+  refine sumTo_congr fun b _ => ?_
+  simp only [Cx.mul_re, Cx.mul_im, Cx.ofK_re, Cx.ofK_im, Cx.mk_re, Cx.mk_im]
+  ring
+
+end cxmean
+
+end SFV.Meas
